@@ -159,6 +159,29 @@ DomainVolume(g) ==
 
 VolSum(g) == RSumSet(Interior(g), LAMBDA c : VolGeom(g, c))
 
+\* true geometric area of face j of axis a on the line of cells through interior cell c, in the
+\* same units of pi as VolGeom (so that area * flux integrates to a change of the domain integral)
+FaceAreaGeo(g, a, c, j) ==
+  LET cls == g.cls
+      sz(b) == Size(g, b, c[b])
+      rf == Face(g, 1, j)
+  IN
+  CASE cls = "Grid1D" -> ROne
+    [] cls = "Grid2D" -> sz(3 - a)
+    [] cls = "Grid3D" -> RMul(sz(IF a = 1 THEN 2 ELSE 1), sz(IF a = 3 THEN 2 ELSE 3))
+    [] cls = "CylindricalGrid1D" -> RMul(R(2), rf)                                 \* 2 pi r * 1
+    [] cls = "SphericalGrid1D"   -> RMul(R(4), RSq(rf))                            \* 4 pi r^2
+    [] cls = "CylindricalGrid2D" -> IF a = 1 THEN RMul(RMul(R(2), rf), sz(2)) ELSE D2(g, c[1])
+    [] cls = "PolarGrid2D"       -> IF a = 1 THEN RMul(rf, sz(2)) ELSE sz(1)
+    [] cls = "CylindricalGrid3D" ->
+         IF a = 1 THEN RMul(RMul(rf, sz(2)), sz(3))
+         ELSE IF a = 2 THEN RMul(sz(1), sz(3))
+         ELSE RMul(RMul(RHalf, D2(g, c[1])), sz(2))
+    [] cls = "SphericalGrid3D" ->      \* midpoint-rule areas (what the scheme uses)
+         IF a = 1 THEN RMul(RMul(RSq(rf), SinM(g, Centre(g, 2, c[2]))), RMul(sz(2), sz(3)))
+         ELSE IF a = 2 THEN RMul(RMul(Centre(g, 1, c[1]), SinM(g, Face(g, 2, j))), RMul(sz(1), sz(3)))
+         ELSE RMul(Centre(g, 1, c[1]), RMul(sz(1), sz(2)))
+
 -----------------------------------------------------------------------------
 (* metric tables of the discretisation (DESIGN appendix A)                 *)
 (*   AreaF(g,a,c,j)  face-area factor of face j of axis a on the line of   *)
